@@ -503,7 +503,10 @@ func optionalSkip(c *core.Ctx, call *ssa.Call, u core.ErrUse) bool {
 }
 
 // c09E3: IsRequired decisions.
-func c09E3(c *core.Ctx, r *core.Report, fns []*ssa.Function) {
+func c09E3(c *core.Ctx, r *core.Report, fns []*ssa.Function) { requiredDecisionRules(c, r, "C09.E3", fns) }
+
+// requiredDecisionRules: at every IsRequired() decision the required edge ends in an error, the optional edge writes nothing.
+func requiredDecisionRules(c *core.Ctx, r *core.Report, rule string, fns []*ssa.Function) {
 	prop := c.Named("component_definition", "Property")
 	isReq := c.DeclaredMethod(prop, "IsRequired")
 	unm := c.DeclaredMethod(prop, "Unmarshall")
@@ -521,7 +524,7 @@ func c09E3(c *core.Ctx, r *core.Report, fns []*ssa.Function) {
 					if _, isDbg := rf.(*ssa.DebugRef); isDbg {
 						continue
 					}
-					r.Undecided("C09.E3", "IsRequired-use@"+core.FnName(fn), c.Pos(call.Pos()), "IsRequired() result is used other than as a branch condition")
+					r.Undecided(rule, "IsRequired-use@"+core.FnName(fn), c.Pos(call.Pos()), "IsRequired() result is used other than as a branch condition")
 					continue
 				}
 				n++
@@ -540,7 +543,7 @@ func c09E3(c *core.Ctx, r *core.Report, fns []*ssa.Function) {
 						}
 					}
 				}
-				r.Check(okTrue && nRet > 0, "C09.E3", cons+":required=>error", c.Pos(iff.Cond.Pos()), "when the point is required every continuation is a non-nil error return")
+				r.Check(okTrue && nRet > 0, rule, cons+":required=>error", c.Pos(iff.Cond.Pos()), "when the point is required every continuation is a non-nil error return")
 				// false edge: up to the next iteration / return, no field write
 				loop := core.InnermostLoop(fn, iff.Block())
 				stop := map[*ssa.BasicBlock]bool{}
@@ -564,12 +567,12 @@ func c09E3(c *core.Ctx, r *core.Report, fns []*ssa.Function) {
 						bad = "error return at " + c.Pos(ret.Pos())
 					}
 				}
-				r.Check(bad == "", "C09.E3", cons+":optional=>skip", c.Pos(iff.Cond.Pos()), "when the point is optional the field is left untouched and no error results "+bad)
+				r.Check(bad == "", rule, cons+":optional=>skip", c.Pos(iff.Cond.Pos()), "when the point is optional the field is left untouched and no error results "+bad)
 			}
 		}
 	}
 	r.Count("IsRequired_decisions", n)
-	r.Floor("C09.E3", "IsRequired() decisions", n, 5)
+	r.Floor(rule, "IsRequired() decisions", n, 5)
 }
 
 // branchOrdinal: position of an If among the Ifs of its function (stable under line moves).
